@@ -1,4 +1,4 @@
-CONSTANTS Clients = {1, 2, 3} Services = {"a"} Supported = {"a"} Base = 1 S = 1 MaxFrames = 4 Threaded = FALSE LevelsUsed = {1} Discards = {FALSE}
+CONSTANTS Clients = {1, 2} Services = {"a", "b", "x"} Supported = {"a", "b"} Base = 2 S = 1 MaxFrames = 3 Threaded = FALSE LevelsUsed = {0, 1, 3} Discards = {FALSE}
 SPECIFICATION Spec
 INVARIANTS TypeOK RefCount CursorOK QueueOrder Buffers Delivery InOrder DeviceOpen
 PROPERTIES Filtered LossOnlyWhenFull OnlyBlockedLose
